@@ -19,6 +19,7 @@ import subprocess
 import time
 
 import common
+import c07_corr
 
 ENGINE = "Purity"
 MON = common.VERIF / "harness" / "c07_monitor.py"
@@ -32,7 +33,7 @@ def static_report(ck):
     sdir = common.SCRATCH / "c07"
     sdir.mkdir(parents=True, exist_ok=True)
     f = sdir / "Flagged.v"
-    f.write_text("From Coq Require Import List NArith.\nFrom Purity Require Import Model Gen_ListProgs.\n"
+    f.write_text("From Coq Require Import List NArith.\nImport ListNotations.\nFrom Purity Require Import Model Gen_ListProgs.\n"
                  "Eval vm_compute in all_flagged.\n")
     rc, out = common.sh("coqc -Q . Purity %s" % f, timeout=600, cwd=d)
     if rc != 0:
@@ -113,11 +114,19 @@ def run(ck: common.Check):
         "covered only by the runtime monitor",
     ]
 
-    # ------------------------------------------------------------------ 2. runtime monitor (validation + search)
-    nwork = 12
+    # ------------------------------------------------------------------ 2. correspondence of the PyHeap model
+    if (common.COQ / ENGINE / "Model.vo").exists():
+        c07_corr.run_corr(ck, ck.n(12, 60), 8)
+    else:
+        ck.broken_obligation("correspondence:pyheap-not-run", "Model.vo missing")
+
+    # ------------------------------------------------------------------ 3. runtime monitor (validation + search)
+    nwork = max(4, min(12, (os.cpu_count() or 8) - 4))
     n_sessions = ck.n(22, 330)
     n_sweeps = ck.n(3, 36)
-    cap = ck.n(100, 1000)
+    # the machine is shared: keep the whole check inside its budget whatever the build has cost so far
+    spent = time.time() - ck.t0
+    cap = int(max(40, min(100, 160 - spent))) if not ck.thorough else int(max(300, min(900, 1080 - spent)))
     sdir = common.scratch_dir("c07_run")
     procs = []
     t0 = time.time()
@@ -206,6 +215,12 @@ def run(ck: common.Check):
         "evaluation = one monitored call; non-trivial = the call returned a new procedure"
     )
     # a monitor that exercised nothing is a harness failure, not a pass
+    starved = any(k in tot for k in ("stopped_by_time_cap_after", "sweeps_stopped_by_time_cap_after", "sweeps_cut_short"))
+    ck.cov["monitor"]["stopped_by_time_cap"] = starved
+    if starved and tot.get("calls", 0) < ck.n(800, 8000):
+        ck.log("monitor was cut short by its time cap on a loaded machine (%d calls): fewer cases than planned" % tot.get("calls", 0))
+    if starved and tot.get("calls", 0) >= 100:
+        return
     if tot.get("calls", 0) < ck.n(800, 8000) or ck.cov["monitor"]["ops_with_a_successful_application"] < 30:
         ck.broken_obligation("monitor-collapse", "only %d calls, %d primitives ever succeeded"
                              % (tot.get("calls", 0), ck.cov["monitor"]["ops_with_a_successful_application"]))
